@@ -32,6 +32,8 @@ PROPS = {
     "C08": "vf.harness.C08",
     "C10": "vf.harness.C10",
     "C13": "vf.harness.C13",
+    "C15": "vf.harness.C15",
+    "C16": "vf.harness.C16",
     "C14": "vf.harness.C14",
 }
 
